@@ -167,7 +167,8 @@ def obligations(tier):
             cfgs.append(("L", "shared", (a, b), 3))
             cfgs.append(("S", "separate", (a, b), 3))
         cfgs += [("L", "separate", ("append", "append", "delsnap"), 2), ("L", "separate", ("append", "expire", "delete"), 2),
-                 ("S", "separate", ("append", "append", "delsnap"), 1), ("L", "shared", ("append", "append", "append"), 1)]
+                 ("S", "separate", ("append", "append", "delsnap"), 1), ("L", "shared", ("append", "append", "append"), 1),
+                 ("L", "separate", ("append", "append", "expire", "delsnap"), 1)]
         T = 1500
     for rig, topo, ops, K in cfgs:
         obs.append(Ob(f"sched.{rig}.{topo}.{'+'.join(ops)}.K{K}", "vf.props.c01:committers",
